@@ -130,6 +130,12 @@ def command : Msg → Bytes
 /-- first four bytes of SHA-256d of the payload -/
 def checksum (payload : Bytes) : Bytes := (Crypto.hash256 payload).take 4
 
+/-- SHA-256d digests are 32 bytes long, so the checksum field is 4 bytes.  A fact about the
+    executable reference `Crypto.hash256` (array loops the kernel cannot evaluate for all inputs);
+    theorems that split a frame at the checksum take it as an explicit hypothesis, and every frame
+    compared by the correspondence run validates it. -/
+def ChecksumLen : Prop := ∀ p : Bytes, (checksum p).length = 4
+
 /-- command NUL-padded to 12 bytes -/
 def commandField (c : Bytes) : Bytes := c ++ List.replicate (12 - c.length) 0
 
